@@ -23,6 +23,7 @@ pub mod c08;
 pub mod c09;
 pub mod c10;
 pub mod c11;
+pub mod c12;
 
 pub fn all() -> Vec<Scenario> {
     let mut v = vec![];
@@ -35,5 +36,6 @@ pub fn all() -> Vec<Scenario> {
     c09::register(&mut v);
     c10::register(&mut v);
     c11::register(&mut v);
+    c12::register(&mut v);
     v
 }
